@@ -35,6 +35,10 @@ class Tracer:
         self.orig = {}
         self.header = {}
         self.depth = 0           # > 0 while inside a traced os-level call (nested calls are not ops)
+        self.restore = []        # (object, attribute, original) for uninstall
+        self.snaps = {}          # op index -> [{"mode","frac","dest"}]: directory snapshots to take
+        self.snap_cb = None      # or: callback(k, kind, name, open_names) -> [{"mode","frac","dest"}]
+        self.snaps_taken = []
 
     # -- bookkeeping -------------------------------------------------------------------------
     def rel(self, path):
@@ -59,6 +63,11 @@ class Tracer:
 
     def op(self, kind, name, tf=None, data=None, extra=None):
         """Called immediately before the operation is performed."""
+        snaps = list(self.snaps.get(len(self.ops), ()))
+        if self.snap_cb is not None:
+            snaps += self.snap_cb(len(self.ops), kind, name, [t.name for t in self.open_files])
+        for snap in snaps:
+            self.snapshot(snap, kind, tf, data)
         if len(self.ops) == self.crash_at:
             self.crash(kind, name, tf, data)
         self.ops.append([kind, name] + ([extra] if extra is not None else []))
@@ -112,6 +121,7 @@ class Tracer:
                 tr.shadow.setdefault(name, bytearray(tr.read_real(name)))
             return TracedFile(tr, f, name, kind, "b" in m)
 
+        self.restore += [(builtins, "open", builtins.open), (io, "open", io.open)]
         builtins.open = t_open
         io.open = t_open
 
@@ -138,6 +148,7 @@ class Tracer:
                         tr.shadow[d] = buf
                 return r
             w._c24_orig = orig
+            self.restore.append((mod, fname, orig))
             setattr(mod, fname, w)
             return orig, w
 
@@ -162,6 +173,7 @@ class Tracer:
                     tr.shadow.pop(n, None)
                 return r
             w._c24_orig = orig
+            self.restore.append((mod, fname, orig))
             setattr(mod, fname, w)
             return orig, w
 
@@ -179,10 +191,42 @@ class Tracer:
             M = importlib.import_module(mn)
             for k, v in list(vars(M).items()):
                 if k == "open":
+                    self.restore.append((M, k, v))
                     setattr(M, k, t_open)
                 for orig, w in pairs:
                     if v is orig:
+                        self.restore.append((M, k, v))
                         setattr(M, k, w)
+
+    def uninstall(self):
+        for obj, attr, orig in reversed(self.restore):
+            setattr(obj, attr, orig)
+        self.restore = []
+
+    def snapshot(self, snap, kind, tf, data):
+        """Copy of the directory exactly as a process kill at this instant would leave it
+        (mode kill: what is on disk now, unflushed buffers are not; flush: every open file holds
+        all bytes handed over so far; torn: additionally a strict prefix of the write in flight)."""
+        import shutil
+        self.depth += 1
+        self.snaps_taken.append({"k": len(self.ops), "mode": snap["mode"], "frac": snap["frac"], "dest": snap["dest"]})
+        try:
+            dest = snap["dest"]
+            if os.path.isdir(self.odir):
+                shutil.copytree(self.odir, dest)
+            else:
+                os.makedirs(os.path.dirname(dest), exist_ok=True)
+            if snap["mode"] in ("flush", "torn"):
+                for t in self.open_files:
+                    buf = bytes(self.shadow.get(t.name) or b"")
+                    if snap["mode"] == "torn" and t is tf:
+                        raw = bytes(data) if t.binary else str(data).encode(getattr(t.f, "encoding", None) or "utf-8")
+                        n = len(raw)
+                        buf += raw[:min(n - 1, max(0, int(n * snap["frac"]))) if n > 0 else 0]
+                    with self.orig["open"](os.path.join(dest, t.name), "wb") as f:
+                        f.write(buf)
+        finally:
+            self.depth -= 1
 
     def read_real(self, name):
         try:
